@@ -1,4 +1,5 @@
 //! Deterministic simulation harness for rosu-pp. See /verif/DESIGN.md.
+pub mod builder;
 pub mod grad;
 pub mod hist;
 pub mod mapgen;
